@@ -11,7 +11,8 @@
 
    Stdlib only, no axioms. *)
 From Coq Require Import Floats.SpecFloat.
-From SJ Require Import lib.Base model.Json model.Ast model.ExecLib model.Leaf spec.Sem proofs.SemBasics.
+From SJ Require Import lib.Base model.Json model.Ast model.ExecLib model.Leaf spec.Sem proofs.SemBasics
+     proofs.DescendProofs proofs.ComposeProofs.
 
 (* order-preserving subsequence: nothing altered, nothing duplicated, nothing reordered *)
 Inductive sublist {A} : list A -> list A -> Prop :=
@@ -333,39 +334,39 @@ Definition fL : ExecLib :=
             (fun a => a) (fun _ => S754_zero false) (fun _ _ _ => false) (fun _ _ => None)
             (fun _ _ _ => CastInvalid) (fun _ _ _ => CmpInvalid) (fun _ => ""%string) (fun l => map snd l).
 
-Definition n_ (z : Z) : json := JNum (NInt z).
+Definition fn_ (z : Z) : json := JNum (NInt z).
 Definition gt0 : step := SBin BGt [SConst CCurrent] [SInteger 0].
 Definition lt3 : step := SBin BLt [SConst CCurrent] [SInteger 3].
-Definition fdoc : json := JArr 0 [n_ 0; n_ 1; n_ 2; n_ 3; n_ 2].
+Definition fdoc : json := JArr 0 [fn_ 0; fn_ 1; fn_ 2; fn_ 3; fn_ 2].
 
 (* $[*] ? (@ > 0) ? (@ < 3), strict: the subsequence 1 2 2, duplicates of the document preserved *)
 Example ex_filter_strict :
   sem_path fL (mkcenv false fdoc [] false) quirks_ideal
     [SConst CRoot; SConst CAnyArray; SUn UFilter [gt0]; SUn UFilter [lt3]]
-  = ([n_ 1; n_ 2; n_ 2], None)
+  = ([fn_ 1; fn_ 2; fn_ 2], None)
   /\ sem_path fL (mkcenv false fdoc [] false) quirks_ideal
     [SConst CRoot; SConst CAnyArray; SUn UFilter [SBin BAnd [gt0] [lt3]]]
-  = ([n_ 1; n_ 2; n_ 2], None).
+  = ([fn_ 1; fn_ 2; fn_ 2], None).
 Proof. vm_compute. split; reflexivity. Qed.
 
 (* lax: the second of two consecutive filters unwraps the item the first one kept *)
-Definition ldoc : json := JArr 0 [JArr 1 [n_ 1; n_ 2]].
+Definition ldoc : json := JArr 0 [JArr 1 [fn_ 1; fn_ 2]].
 Example ex_filter_lax_differs :
   sem_path fL (mkcenv true ldoc [] false) quirks_ideal
     [SConst CRoot; SUn UFilter [gt0]; SUn UFilter [lt3]]
-  = ([n_ 1; n_ 2], None)
+  = ([fn_ 1; fn_ 2], None)
   /\ sem_path fL (mkcenv true ldoc [] false) quirks_ideal
     [SConst CRoot; SUn UFilter [SBin BAnd [gt0] [lt3]]]
-  = ([JArr 1 [n_ 1; n_ 2]], None).
+  = ([JArr 1 [fn_ 1; fn_ 2]], None).
 Proof. vm_compute. split; reflexivity. Qed.
 
 (* a suppressible error inside the condition (strict: .a on a number) is unknown:
    the item is dropped and the query goes on *)
-Definition odoc : json := JArr 0 [n_ 1; JObj 1 [("a", n_ 5)]%string; n_ 2].
+Definition odoc : json := JArr 0 [fn_ 1; JObj 1 [("a", fn_ 5)]%string; fn_ 2].
 Example ex_suppressed :
   sem_path fL (mkcenv false odoc [] false) quirks_ideal
     [SConst CRoot; SConst CAnyArray; SUn UFilter [SBin BEq [SConst CCurrent; SKey "a"] [SInteger 5]]]
-  = ([JObj 1 [("a", n_ 5)]%string], None).
+  = ([JObj 1 [("a", fn_ 5)]%string], None).
 Proof. vm_compute. reflexivity. Qed.
 
 (* a non-suppressible error (unknown variable) aborts the query *)
@@ -380,10 +381,324 @@ Proof. vm_compute. reflexivity. Qed.
 Definition unk : step := SBin BEq [SConst CCurrent; SKey "a"] [SInteger 5].
 Definition boom : step := SBin BEq [SConst CCurrent] [SVar "x"].
 Example ex_fuse_needs_no_hard_error :
-  sem_path fL (mkcenv false (n_ 1) [] false) quirks_ideal
+  sem_path fL (mkcenv false (fn_ 1) [] false) quirks_ideal
     [SConst CRoot; SUn UFilter [unk]; SUn UFilter [boom]]
   = ([], None)
-  /\ sem_path fL (mkcenv false (n_ 1) [] false) quirks_ideal
+  /\ sem_path fL (mkcenv false (fn_ 1) [] false) quirks_ideal
     [SConst CRoot; SUn UFilter [SBin BAnd [unk] [boom]]]
   = ([], Some (EExec "could not find jsonpath variable")).
 Proof. vm_compute. split; reflexivity. Qed.
+
+(* ------------------------------------------------------------------ *)
+(* "An item is kept exactly when C, rewritten as a predicate check expression
+   over that item, yields true": replace @ by $ (outside nested filters, which
+   rebind @) and evaluate with the item as the document. *)
+
+Fixpoint subst_step (s : step) : step :=
+  let sch := fix sch (c : list step) : list step :=
+    match c with [] => [] | x :: r => subst_step x :: sch r end in
+  match s with
+  | SConst CCurrent => SConst CRoot
+  | SBin op l r => SBin op (sch l) (sch r)
+  | SUn UFilter a => SUn UFilter a
+  | SUn op a => SUn op (sch a)
+  | SRegex a p f => SRegex (sch a) p f
+  | SIndex subs =>
+      SIndex ((fix go (l : list (list step * option (list step))) : list (list step * option (list step)) :=
+                 match l with
+                 | [] => []
+                 | (a, b) :: r => (sch a, match b with Some c => Some (sch c) | None => None end) :: go r
+                 end) subs)
+  | _ => s
+  end.
+
+Definition subst_chain (c : chain) : chain :=
+  (fix sch (c : list step) : list step :=
+     match c with [] => [] | x :: r => subst_step x :: sch r end) c.
+
+Fixpoint subst_subs (l : list (chain * option chain)) : list (chain * option chain) :=
+  match l with
+  | [] => []
+  | (a, b) :: r => (subst_chain a, match b with Some c => Some (subst_chain c) | None => None end) :: subst_subs r
+  end.
+
+Lemma subst_chain_cons x r : subst_chain (x :: r) = subst_step x :: subst_chain r.
+Proof. reflexivity. Qed.
+Lemma subst_bin op l r : subst_step (SBin op l r) = SBin op (subst_chain l) (subst_chain r).
+Proof. reflexivity. Qed.
+Lemma subst_un op a : op <> UFilter -> subst_step (SUn op a) = SUn op (subst_chain a).
+Proof. destruct op; intros H; try reflexivity. congruence. Qed.
+Lemma subst_regex a p f : subst_step (SRegex a p f) = SRegex (subst_chain a) p f.
+Proof. reflexivity. Qed.
+Lemma subst_index subs : subst_step (SIndex subs) = SIndex (subst_subs subs).
+Proof.
+  reflexivity.
+Qed.
+
+Section Subst.
+Variable L : ExecLib.
+Variable C : cenv.
+Variable Q : quirks.
+Variable x : json.                      (* the item: @ on the left, $ on the right *)
+Variable cur' : json.                   (* whatever @ is on the right *)
+Let C' := set_root C x.
+
+Definition Ps (s : step) : Prop := forall fl l ig u v,
+  indep s true false fl = true ->
+  sem_step L C Q s tone_k x l ig u v = sem_step L C' Q (subst_step s) tone_k cur' l ig u v /\
+  sem_pred L C Q s x l ig v = sem_pred L C' Q (subst_step s) cur' l ig v.
+
+Definition Qs (c : chain) : Prop := forall fl l ig u v,
+  indep_chain c true false fl = true ->
+  sem_chain L C Q c x l ig u v = sem_chain L C' Q (subst_chain c) cur' l ig u v /\
+  pred_chain L C Q c x l ig v = pred_chain L C' Q (subst_chain c) cur' l ig v.
+
+Lemma step_lsz_subst s l v : step_lsz C' (subst_step s) l v = step_lsz C s l v.
+Proof. destruct s as [[]| | | | | | |[]| | | | | |]; reflexivity. Qed.
+
+Lemma step_ig_subst s ig : step_ig (subst_step s) ig = step_ig s ig.
+Proof. destruct s as [[]| | | | | | |[]| | | | | |]; reflexivity. Qed.
+
+Lemma Qs_nil : Qs [].
+Proof. intros fl l ig u v _. split; reflexivity. Qed.
+
+Lemma Qs_cons s c : Ps s -> Qs c -> Qs (s :: c).
+Proof.
+  intros Hs Hc fl l ig u v H. rewrite indep_chain_cons in H. apply andb_true_iff in H. destruct H as [H1 H2].
+  destruct (Hs fl l ig u v H1) as [E1 E2]. rewrite subst_chain_cons. split.
+  - rewrite !sem_chain_cons, (sem_step_param L C Q s), (sem_step_param L C' Q (subst_step s)), E1.
+    rewrite step_lsz_subst, step_ig_subst. apply tbind_trace_ext. intros y _.
+    change (laxm C') with (laxm C). now apply (Hc fl).
+  - rewrite !pred_chain_cons. destruct c; [exact E2 | reflexivity].
+Qed.
+
+Lemma sem_pred_other_subst s l ig v :
+  match s with SBin _ _ _ | SUn UExists _ | SUn UNot _ | SUn UIsUnknown _ | SRegex _ _ _ => False | _ => True end ->
+  sem_pred L C Q s x l ig v = sem_pred L C' Q (subst_step s) cur' l ig v.
+Proof.
+  intros H. rewrite sem_pred_other by exact H. rewrite sem_pred_other; [reflexivity|].
+  destruct s as [[]| | | | | | |[]| | | | | |]; try exact I; try (now elim H).
+Qed.
+
+Lemma operand_subst c un fl l ig v :
+  Qs c -> indep_chain c true false fl = true ->
+  operand L C Q c un x l ig v = operand L C' Q (subst_chain c) un cur' l ig v.
+Proof.
+  intros Hc H. unfold operand. cbv zeta. change (laxm C') with (laxm C).
+  now rewrite (proj1 (Hc fl l ig (laxm C) v H)).
+Qed.
+
+Lemma predicate_subst lc rc ur cb fl l ig v :
+  Qs lc -> match rc with Some c => Qs c | None => True end ->
+  indep_chain lc true false fl = true ->
+  match rc with Some c => indep_chain c true false fl = true | None => True end ->
+  predicate L C Q lc rc ur cb x l ig v =
+  predicate L C' Q (subst_chain lc) (option_map subst_chain rc) ur cb cur' l ig v.
+Proof.
+  intros Hlc Hrc H1 H2. unfold predicate.
+  rewrite (operand_subst lc true fl l ig v Hlc H1).
+  destruct rc as [c|]; [|reflexivity]. cbn [option_map].
+  now rewrite (operand_subst c ur fl l ig v Hrc H2).
+Qed.
+
+Lemma Ps_bin op lc rc : Qs lc -> Qs rc -> Ps (SBin op lc rc).
+Proof.
+  intros Hlc Hrc fl l ig u v H. rewrite indep_bin in H. apply andb_true_iff in H. destruct H as [H1 H2].
+  rewrite subst_bin.
+  assert (Epred : sem_pred L C Q (SBin op lc rc) x l ig v =
+                  sem_pred L C' Q (SBin op (subst_chain lc) (subst_chain rc)) cur' l ig v).
+  { destruct (is_cmp op) eqn:Ecmp.
+    - rewrite !sem_pred_cmp by exact Ecmp. change (cmp_cb L C' op) with (cmp_cb L C op).
+      now apply (predicate_subst lc (Some rc) true (cmp_cb L C op) fl).
+    - destruct op; try discriminate Ecmp.
+      + rewrite !sem_pred_and.
+        now rewrite (proj2 (Hlc fl l ig u v H1)), (proj2 (Hrc fl l ig u v H2)).
+      + rewrite !sem_pred_or.
+        now rewrite (proj2 (Hlc fl l ig u v H1)), (proj2 (Hrc fl l ig u v H2)).
+      + rewrite !sem_pred_starts.
+        now apply (predicate_subst lc (Some rc) false executeStartsWith fl).
+      + now rewrite !sem_pred_arith by reflexivity.
+      + now rewrite !sem_pred_arith by reflexivity.
+      + now rewrite !sem_pred_arith by reflexivity.
+      + now rewrite !sem_pred_arith by reflexivity.
+      + now rewrite !sem_pred_arith by reflexivity. }
+  split; [|exact Epred].
+  destruct (is_bool_binop op) eqn:E.
+  - rewrite !sem_step_boolbin by exact E. now rewrite Epred.
+  - rewrite !sem_step_arith by exact E. unfold arith_step. cbv zeta. change (laxm C') with (laxm C).
+    now rewrite (proj1 (Hlc fl l ig (laxm C) v H1)), (proj1 (Hrc fl l ig (laxm C) v H2)).
+Qed.
+
+Lemma Ps_un op a : Qs a -> Ps (SUn op a).
+Proof.
+  intros Ha fl l ig u v H.
+  destruct op.
+  - rewrite indep_un in H by discriminate. rewrite subst_un by discriminate.
+    assert (E : sem_pred L C Q (SUn UExists a) x l ig v = sem_pred L C' Q (SUn UExists (subst_chain a)) cur' l ig v).
+    { rewrite !sem_pred_exists. cbv zeta. change (laxm C') with (laxm C).
+      now rewrite (proj1 (Ha fl l ig (laxm C) v H)). }
+    split; [|exact E]. rewrite !sem_step_pred_un by exact I. now rewrite E.
+  - rewrite indep_un in H by discriminate. rewrite subst_un by discriminate.
+    assert (E : sem_pred L C Q (SUn UNot a) x l ig v = sem_pred L C' Q (SUn UNot (subst_chain a)) cur' l ig v).
+    { rewrite !sem_pred_not. now rewrite (proj2 (Ha fl l ig u v H)). }
+    split; [|exact E]. rewrite !sem_step_pred_un by exact I. now rewrite E.
+  - rewrite indep_un in H by discriminate. rewrite subst_un by discriminate.
+    assert (E : sem_pred L C Q (SUn UIsUnknown a) x l ig v = sem_pred L C' Q (SUn UIsUnknown (subst_chain a)) cur' l ig v).
+    { rewrite !sem_pred_isunknown. now rewrite (proj2 (Ha fl l ig u v H)). }
+    split; [|exact E]. rewrite !sem_step_pred_un by exact I. now rewrite E.
+  - rewrite indep_un in H by discriminate. rewrite subst_un by discriminate.
+    split; [|now rewrite !sem_pred_other].
+    rewrite !sem_step_plus. unfold sign_step. cbv zeta. change (laxm C') with (laxm C).
+    now rewrite (proj1 (Ha fl l ig (laxm C) v H)).
+  - rewrite indep_un in H by discriminate. rewrite subst_un by discriminate.
+    split; [|now rewrite !sem_pred_other].
+    rewrite !sem_step_minus. unfold sign_step. cbv zeta. change (laxm C') with (laxm C).
+    now rewrite (proj1 (Ha fl l ig (laxm C) v H)).
+  - (* a nested filter rebinds @: untouched by the substitution; it does not
+       mention $ and does not see the outer @ *)
+    change (subst_step (SUn UFilter a)) with (SUn UFilter a).
+    assert (H' : indep (SUn UFilter a) true true fl = true) by exact H.
+    exact (indep_step_sound L C Q x (SUn UFilter a) true true fl x cur' l l ig u v H'
+             (fun E => ltac:(discriminate E)) (fun E => ltac:(discriminate E)) (fun _ => eq_refl)).
+Qed.
+
+Lemma Ps_regex a pat flags : Qs a -> Ps (SRegex a pat flags).
+Proof.
+  intros Ha fl l ig u v H. rewrite indep_regex in H. rewrite subst_regex.
+  assert (E : sem_pred L C Q (SRegex a pat flags) x l ig v =
+              sem_pred L C' Q (SRegex (subst_chain a) pat flags) cur' l ig v).
+  { rewrite !sem_pred_regex.
+    now apply (predicate_subst a None false (fun y _ => executeLikeRegex L pat flags y) fl). }
+  split; [|exact E]. rewrite !sem_step_regex. now rewrite E.
+Qed.
+
+Lemma Ps_index subs :
+  Forall (fun ab => Qs (fst ab) /\ match snd ab with Some c => Qs c | None => True end) subs ->
+  Ps (SIndex subs).
+Proof.
+  intros Hsubs fl l ig u v H. rewrite indep_index in H. rewrite subst_index.
+  split; [|now rewrite !sem_pred_other].
+  rewrite !sem_step_index. change (index_target C' v) with (index_target C v).
+  destruct (index_target C v) as [es|]; [|reflexivity].
+  unfold tone_k. revert H. induction Hsubs as [|[a b] r [Ha Hb] _ IH]; intros H; [reflexivity|].
+  cbn [indep_subs fst snd subst_subs] in *. apply andb_true_iff in H. destruct H as [H H3].
+  apply andb_true_iff in H. destruct H as [H1 H2].
+  cbn [index_go]. change (laxm C') with (laxm C).
+  rewrite (proj1 (Ha false _ ig (laxm C) v H1)).
+  destruct b as [bn|].
+  - rewrite (proj1 (Hb false _ ig (laxm C) v H2)).
+    destruct (index_of L (sem_chain L C' Q (subst_chain a) _ _ _ _ _)) as [from|e]; [|reflexivity].
+    destruct (index_of L (sem_chain L C' Q (subst_chain bn) _ _ _ _ _)) as [to|e]; [|reflexivity].
+    destruct (negb ig && _); [reflexivity|]. now rewrite (IH H3).
+  - destruct (index_of L (sem_chain L C' Q (subst_chain a) _ _ _ _ _)) as [from|e]; [|reflexivity].
+    destruct (negb ig && _); [reflexivity|]. now rewrite (IH H3).
+Qed.
+
+Lemma Ps_simple s :
+  match s with
+  | SConst _ | SBin _ _ _ | SUn _ _ | SRegex _ _ _ | SIndex _ => False
+  | _ => True
+  end -> Ps s.
+Proof.
+  intros Hs fl l ig u v _.
+  split; [|apply sem_pred_other_subst; destruct s; try exact I; now elim Hs].
+  destruct s; try (elim Hs; fail); cbn [subst_step];
+    rewrite ?sem_step_str, ?sem_step_integer, ?sem_step_numeric, ?sem_step_var, ?sem_step_key,
+            ?sem_step_meth, ?sem_step_decimal, ?sem_step_dt, ?sem_step_any; reflexivity.
+Qed.
+
+Lemma Ps_const k : Ps (SConst k).
+Proof.
+  intros fl l ig u v H. split; [|apply sem_pred_other_subst; exact I].
+  destruct k; cbn [indep] in H; cbn [subst_step]; try discriminate H.
+  - now rewrite sem_step_current, sem_step_root.
+  - now rewrite !sem_step_last.
+  - now rewrite !sem_step_anyarray.
+  - now rewrite !sem_step_anykey.
+  - now rewrite !sem_step_true.
+  - now rewrite !sem_step_false.
+  - now rewrite !sem_step_null.
+Qed.
+
+Theorem subst_step_sound s : Ps s.
+Proof.
+  induction s using step_ind' with (Q := Qs).
+  - apply Qs_nil.
+  - now apply Qs_cons.
+  - apply Ps_const.
+  - now apply Ps_simple.
+  - now apply Ps_simple.
+  - now apply Ps_simple.
+  - now apply Ps_simple.
+  - now apply Ps_simple.
+  - now apply Ps_bin.
+  - now apply Ps_un.
+  - now apply Ps_regex.
+  - now apply Ps_simple.
+  - now apply Ps_simple.
+  - now apply Ps_simple.
+  - now apply Ps_simple.
+  - now apply Ps_index.
+Qed.
+
+End Subst.
+
+(* the substitution lemma: the condition of a filter on item x is the
+   substituted condition evaluated with x as the document — whatever @ then is *)
+Theorem subst_cur_root L C Q c x cur' l ig :
+  indep c true false false = true ->          (* c does not mention $ *)
+  sem_pred L C Q c x l ig x = sem_pred L (set_root C x) Q (subst_step c) cur' l ig x.
+Proof. intros H. exact (proj2 (subst_step_sound L C Q x cur' c false l ig false x H)). Qed.
+
+Lemma sem_step_of_pred L C Q s k cur l ig u v :
+  is_pred_step s = true ->
+  sem_step L C Q s k cur l ig u v = pred_item (sem_pred L C Q s cur l ig v) (k l ig).
+Proof.
+  destruct s as [| | | | | |op lc rc|op a|a p f| | | | |]; try discriminate; cbn [is_pred_step]; intros H.
+  - now apply sem_step_boolbin.
+  - destruct op; try discriminate H; now apply sem_step_pred_un.
+  - apply sem_step_regex.
+Qed.
+
+Lemma subst_pred_step s : is_pred_step s = true -> is_pred_step (subst_step s) = true.
+Proof.
+  destruct s as [| | | | | |op lc rc|op a|a p f| | | | |]; try discriminate; try (intros H; exact H).
+  destruct op; try discriminate; intros _; reflexivity.
+Qed.
+
+(* the rewritten condition as a predicate check expression (a path whose root
+   chain is the predicate itself), run on the item as document *)
+Theorem kept_iff_predicate_check L C Q c x l :
+  is_pred_step c = true ->
+  indep c true false true = true ->           (* no $, no free last *)
+  (sem_pred L C Q c x l (laxm C) x = (PTrue, None) <->
+   sem_path L (set_root C x) Q [subst_step c] = ([JBool true], None)).
+Proof.
+  intros Hp Hi.
+  assert (Hi' : indep c true false false = true)
+    by (eapply indep_weaken_step; [| | |exact Hi]; auto).
+  (* last is not free in c: its value does not matter *)
+  assert (El : sem_pred L C Q c x l (laxm C) x = sem_pred L C Q c x (-1) (laxm C) x).
+  { pose proof (indep_step_sound L C Q (c_root C) c false false true x x l (-1) (laxm C) false x) as Hs.
+    assert (Hi2 : indep c false false true = true) by (eapply indep_weaken_step; [| | |exact Hi]; auto).
+    destruct (Hs Hi2 (fun _ => eq_refl) (fun _ => eq_refl) (fun E => ltac:(discriminate E))) as [_ E].
+    now rewrite set_root_same in E. }
+  rewrite El, (subst_cur_root L C Q c x x (-1) (laxm C) Hi').
+  rewrite sem_path_eq, sem_chain_cons. cbn [c_root set_root]. change (laxm (set_root C x)) with (laxm C).
+  rewrite sem_step_of_pred by (now apply subst_pred_step).
+  destruct (sem_pred L (set_root C x) Q (subst_step c) x (-1) (laxm C) x) as [p [e|]]; cbn [pred_item].
+  - split; intros H; discriminate H.
+  - rewrite sem_chain_nil. destruct p; cbn [bool_item tone]; split; intros H; try discriminate H; reflexivity.
+Qed.
+
+(* example: @.a > 1 becomes $.a > 1 *)
+Example ex_subst :
+  subst_step (SBin BGt [SConst CCurrent; SKey "a"] [SInteger 1]) = SBin BGt [SConst CRoot; SKey "a"] [SInteger 1]
+  /\ subst_step (SUn UExists [SConst CCurrent; SUn UFilter [SBin BGt [SConst CCurrent] [SInteger 1]]])
+     = SUn UExists [SConst CRoot; SUn UFilter [SBin BGt [SConst CCurrent] [SInteger 1]]].
+Proof. split; reflexivity. Qed.
+
+Example ex_subst_hyps :
+  indep (SBin BGt [SConst CCurrent; SKey "a"] [SInteger 1]) true false true = true /\
+  is_pred_step (SBin BGt [SConst CCurrent; SKey "a"] [SInteger 1]) = true.
+Proof. split; reflexivity. Qed.
